@@ -35,6 +35,74 @@ def inv_summary(p):
     return s
 
 
+RESIDUE_ONLY = ("a zero residue cannot enter the loop", "low enters the loop as a residue")
+
+
+def euclid_contract(S):
+    """wildcard summary: an integer inverse routine that is not prime_field_inv itself (the Euclid loop moved into a helper that the
+    field operators call directly).  The routine is classified once with the C08.R4 schema: every obligation holds -> it is inv0
+    on every integer; only the obligations about unreduced operands fail (zero test on the raw argument, loop entered without
+    `% n`) -> it is inv0 on residues 0 <= a < n only, and a call site that hands it anything else gets a value that is *not*
+    inv0 (a distinct atom: the operator's result then differs from the specification and the obligation fails, naming it)"""
+    import ast as _ast
+    from .euclid import check_euclid
+    std = inv_summary(S.p)
+    cache = S.world.__dict__.setdefault("_euclid_contracts", {})
+
+    def classify(f):
+        if f.qualname not in cache:
+            a = f.node.args
+            shaped = (len(a.posonlyargs + a.args) == 2 and not a.vararg and not a.kwonlyargs
+                      and any(isinstance(n, _ast.While) for n in f.node.body))
+            if not shaped:
+                cache[f.qualname] = None
+            else:
+                try:
+                    res = check_euclid(S.world, f)
+                    bad = [k for k, ok, _ in res if not ok]
+                    cache[f.qualname] = ("total", "") if not bad else \
+                        ("residues", bad[0]) if all(k.startswith(RESIDUE_ONLY) for k in bad) else ("wrong", bad[0])
+                except AnalysisError:
+                    cache[f.qualname] = None
+        return cache[f.qualname]
+
+    def s(it, f, args, kwargs, node):
+        if kwargs or len(args) != 2 or args[1] != S.p or isinstance(args[1], bool) or f.qualname == UTILS_INV:
+            return NotImplemented
+        a = args[0]
+        if not isinstance(a, (FieldSym, int)):
+            return NotImplemented
+        c = classify(f)
+        if c is None:
+            return NotImplemented
+        kind, why = c
+        if kind == "total":
+            return std(it, f, args, kwargs, node)
+        if kind == "residues":
+            if isinstance(a, int):
+                if 0 <= a < S.p:
+                    return std(it, f, args, kwargs, node)
+            else:
+                red = a.reduced
+                if not red:
+                    prev = getattr(S, "cur_it", None)
+                    S.cur_it = prev or it
+                    try:
+                        lo, hi = S.range_on_path(a)
+                        red = lo >= 0 and hi <= S.p - 1
+                    except AnalysisError:
+                        red = False
+                    finally:
+                        S.cur_it = prev
+                if red:
+                    return std(it, f, args, kwargs, node)
+        tag = f"{f.qualname.rsplit('.', 1)[-1]}@{it.where(node)}: not inv0 here — {why.split(':')[0][:90]}"
+        if isinstance(a, int):
+            return FieldSym(Rat(Poly.var(f"WRONG[{tag}]({a})", S.p)), S.fcls, True)
+        return FieldSym(Rat(Poly.var(f"WRONG[{tag}]({Poly(a.r.n.t, S.p)!r})", S.p)), a.cls, True)
+    return s
+
+
 class FieldSubject:
     """one concrete field class (e.g. py_ecc.fields.optimized_bn128_FQ2) under analysis"""
 
@@ -55,7 +123,7 @@ class FieldSubject:
                 raise AnalysisError(f"{cls.qualname}: constructor of {init.cls.name} not recognised")
             self.mc = tuple(it.class_attr(cls, mcname))
             self.d = len(self.mc)
-        self.summ = {UTILS_INV: inv_summary(self.p)}
+        self.summ = {UTILS_INV: inv_summary(self.p), "*": euclid_contract(self)}
         self.repo.func(UTILS_INV)
         self.undecided = []
 
@@ -436,6 +504,38 @@ def run_fq(S: FieldSubject):
             return ok, "" if ok else f"≡ {val!r}"
         S.over_paths(body, f"__pow__({n})", m.where, out)
     return S.settle(out)
+
+
+def compare_modes(S: FieldSubject):
+    """how the prime-field class treats an *int* operand of its comparison operators: 'raw' (the stored residue is compared with
+    the int as given), 'reduced' (the int is reduced modulo p first), 'refused' (TypeError) or 'absent'.  The two siblings must
+    agree (C14: comparison is part of the statement); -> {method: mode}"""
+    out = {}
+    it0 = Interp(S.world, native_fields=False)
+    for meth in ("__eq__", "__ne__", "__lt__", "__le__", "__gt__", "__ge__"):
+        m = it0.find_method(S.cls, meth)
+        if m is None:
+            out[meth] = "absent"
+            continue
+
+        def body(it, m=m):
+            a, _av = S.element(it, "a")
+            r = it.call_func(m, [a, S.var("k")], {})
+            if not isinstance(r, bool):
+                it.truth(r)
+            return True
+        try:
+            paths = alg_paths(S.world, body, AlgState(), native_fields=False, summaries=S.summ)
+        except AnalysisError as e:
+            out[meth] = f"undecided ({e})"[:120]
+            continue
+        if paths and all(p.outcome == "raise" for p in paths):
+            out[meth] = "refused"
+        elif any(ev["kind"] == "unreduced_compare" for p in paths for ev in p.events):
+            out[meth] = "raw"
+        else:
+            out[meth] = "reduced"
+    return out
 
 
 def run_fqp(S: FieldSubject):
